@@ -237,8 +237,8 @@ class C04(Prop):
                "map under batch permutation is false (keys colliding on their first hash are placed in batch order)")
     trusted_extra = c03.C03.trusted_extra
     n_quick = 100
-    n_thorough = 2000
-    case_timeout = 40
+    n_thorough = 1500
+    case_timeout = 30
     workers = 6
     rule = ("cases = pairs of registration histories on two bare IndexMaps of equal size (relabelled / permuted / sub- and super-set / "
             "extra batches) and pairs of whole simulations with different birth schedules; distinct by case hash; non-trivial = at "
